@@ -269,7 +269,7 @@ PROPS["C09"] = {
                   "statement of <name>.~N~), next number greater than every existing one for arbitrary directory listings (one inductive step of the history), backup path construction; "
                   "CopyHandle::new: rename strictly before the destination is re-created, failed rename never followed by a create (kill/fault safety as prefixes of the mutating-call sequence)",
     "level_note": "trusted: MIR interpreter; summaries of std::path/OsStr/regex/str::parse (the regex pattern is read from the code and interpreted for the supported subset); "
-                  "names up to 12 (quick) / 26 (thorough) characters, listings of 2 / 3 siblings; the directory scan (ReadDir) itself is summarised",
+                  "names up to 12 (quick) / 26 (thorough) characters, listings of 2 / 3 siblings; which directory is scanned (ls_file_dir) is executed over an abstract path, the ReadDir iteration itself is a summary",
     "assumptions": L2_ASSUME + ["rename(2) is atomic", "the directory listing returned by read_dir contains every sibling"],
     "e2": [E("is_num_backup", "p_backup", "lemma_is_num_backup"), E("next_backup_num", "p_backup", "lemma_next_backup_num"),
            E("has_backup", "p_backup", "lemma_has_backup"), E("backup_path", "p_backup", "lemma_backup_path"), E("ls_file_dir", "p_backup", "lemma_ls_file_dir"),
